@@ -11,6 +11,11 @@
 //	E:<id>:<tid>:<hexm>     *thrift.ProtocolException with cause (needs a child that is not a PE)
 //
 // Objects are interned by the text of their (sub)term: equal text = the same Go object.
+//
+// `exc multi <src> <err> <steps>`: the helpers applied SEVERAL TIMES to one error object; <src> = `t` (the
+// interned object of <err>) or `c.<name>` (the error the real codec returns for a fixed malformed input -
+// mostly package-level singletons; <err> is then what that error looked like when the process started).
+// Format: lean/Drv/Exc.lean.
 package main
 
 import (
@@ -20,7 +25,9 @@ import (
 	"strconv"
 	"strings"
 
+	"github.com/cloudwego/gopkg/bufiox"
 	"github.com/cloudwego/gopkg/protocol/thrift"
+	"github.com/cloudwego/gopkg/protocol/thrift/base"
 	"verifharness/lib"
 )
 
@@ -184,6 +191,10 @@ func guard(f func() string) string {
 					res = "bad-op"
 					return
 				}
+				if _, ok := r.(srcUnavailable); ok {
+					res = "src-unavailable"
+					return
+				}
 				panic(r)
 			}
 		}()
@@ -234,6 +245,8 @@ func runOp(f []string) (string, bool) {
 			}
 			return fmt.Sprintf("new %s %s %s unwrap=%s %s", tidOf(r), hexs(r.Msg()), hexs(r.Error()), uw, tail)
 		}), true
+	case f[1] == "multi" && len(f) == 5:
+		return guard(func() string { return runMulti(f[2], f[3], f[4]) }), true
 	case f[1] == "is" && len(f) == 4:
 		return guard(func() string {
 			e, tg := parseErrN(f[2]), parseErrN(f[3])
@@ -316,6 +329,283 @@ func emit(f ...string) string {
 	}
 	em.Line(res, f...)
 	return res
+}
+
+// ---------------------------------------------------------------- errors returned by the real codecs
+
+func nestedLists(depth int) []byte {
+	var b []byte
+	for i := 0; i < depth; i++ {
+		b = append(b, byte(thrift.LIST), 0, 0, 0, 1)
+	}
+	return append(b, byte(thrift.BYTE), 0, 0, 0, 0)
+}
+
+var (
+	negStr     = []byte{0xff, 0xff, 0xff, 0xf9}          // string/binary with length -7
+	negList    = []byte{byte(thrift.I32), 0x80, 0, 0, 0} // list<i32> with size MinInt32
+	negMap     = []byte{byte(thrift.BYTE), byte(thrift.BYTE), 0xff, 0xff, 0xff, 0xff}
+	deepList   = nestedLists(80) // deeper than the recursion limit (64)
+	badVersion = []byte{0x00, 0x01, 0x00, 0x01, 0, 0, 0, 1, 'm', 0, 0, 0, 1}
+	// struct fields: (STRING, id 2, length -7) / (LIST, id 99, list<i32> of negative size) / half a field header
+	fieldNegStr  = append([]byte{byte(thrift.STRING), 0, 2}, negStr...)
+	fieldNegSkip = append([]byte{byte(thrift.LIST), 0, 99}, negList...)
+	fieldDeep    = append([]byte{byte(thrift.LIST), 0, 98}, deepList...)
+	fieldHalf    = []byte{byte(thrift.STRING), 0}
+	respNegStr   = append([]byte{byte(thrift.STRING), 0, 1}, 0xff, 0xff, 0xff, 0xff)
+)
+
+type codecSrc struct {
+	name string
+	get  func() error
+}
+
+func cp(b []byte) []byte { return append([]byte(nil), b...) }
+
+// every entry runs the real code on its own copy of a fixed malformed input and returns the error it reports
+var codecSrcs = []codecSrc{
+	{"skipneg", func() error { _, err := thrift.Binary.Skip(cp(negStr), thrift.STRING); return err }},
+	{"skipneglist", func() error { _, err := thrift.Binary.Skip(cp(negList), thrift.LIST); return err }},
+	{"skipnegmap", func() error { _, err := thrift.Binary.Skip(cp(negMap), thrift.MAP); return err }},
+	{"skipdepth", func() error { _, err := thrift.Binary.Skip(cp(deepList), thrift.LIST); return err }},
+	{"skipshort", func() error { _, err := thrift.Binary.Skip([]byte{0, 0}, thrift.I32); return err }},
+	{"skipempty", func() error { _, err := thrift.Binary.Skip(nil, thrift.I32); return err }},
+	{"badver", func() error { _, _, _, _, err := thrift.Binary.ReadMessageBegin(cp(badVersion)); return err }},
+	{"msgshort", func() error { _, _, _, _, err := thrift.Binary.ReadMessageBegin([]byte{0x80}); return err }},
+	{"readstr", func() error { _, _, err := thrift.Binary.ReadString([]byte{0, 0, 0, 9, 'x'}); return err }},
+	{"readstrneg", func() error { _, _, err := thrift.Binary.ReadString(cp(negStr)); return err }},
+	{"readbinneg", func() error { _, _, err := thrift.Binary.ReadBinary(cp(negStr)); return err }},
+	{"readi64", func() error { _, _, err := thrift.Binary.ReadI64([]byte{1, 2, 3}); return err }},
+	{"brneg", func() error {
+		br := thrift.NewBufferReader(bufiox.NewBytesReader(cp(negStr)))
+		_, err := br.ReadString()
+		return err
+	}},
+	{"brbadver", func() error {
+		br := thrift.NewBufferReader(bufiox.NewBytesReader(cp(badVersion)))
+		_, _, _, err := br.ReadMessageBegin()
+		return err
+	}},
+	{"brskipneg", func() error {
+		return thrift.NewBufferReader(bufiox.NewBytesReader(cp(negList))).Skip(thrift.LIST)
+	}},
+	{"brskipdepth", func() error {
+		return thrift.NewBufferReader(bufiox.NewBytesReader(cp(deepList))).Skip(thrift.LIST)
+	}},
+	{"breof", func() error { // an error made per call: a protocol exception over the reader's own error
+		_, err := thrift.NewBufferReader(bufiox.NewBytesReader([]byte{1, 2})).ReadI32()
+		return err
+	}},
+	{"sdneg", func() error { _, err := thrift.NewBytesSkipDecoder(cp(negStr)).Next(thrift.STRING); return err }},
+	{"sddepth", func() error { _, err := thrift.NewBytesSkipDecoder(cp(deepList)).Next(thrift.LIST); return err }},
+	{"sdrneg", func() error {
+		_, err := thrift.NewSkipDecoder(bufiox.NewBytesReader(cp(negMap))).Next(thrift.MAP)
+		return err
+	}},
+	// generated code: the codec's error goes through PrependError at the real call sites
+	{"basefield", func() error { _, err := (&base.Base{}).FastRead(cp(fieldNegStr)); return err }},
+	{"baseskip", func() error { _, err := (&base.Base{}).FastRead(cp(fieldNegSkip)); return err }},
+	{"basedeep", func() error { _, err := (&base.Base{}).FastRead(cp(fieldDeep)); return err }},
+	{"basebegin", func() error { _, err := (&base.Base{}).FastRead(cp(fieldHalf)); return err }},
+	{"respfield", func() error { _, err := (&base.BaseResp{}).FastRead(cp(respNegStr)); return err }},
+	{"respskip", func() error { _, err := (&base.BaseResp{}).FastRead(cp(fieldNegSkip)); return err }},
+}
+
+// the codec accepted the malformed input of a codec source (not C18's business): the op has no subject
+type srcUnavailable struct{}
+
+func codecErr(name string) error {
+	for _, c := range codecSrcs {
+		if c.name == name {
+			e := c.get()
+			if e == nil {
+				panic(srcUnavailable{})
+			}
+			return e
+		}
+	}
+	panic(badTerm{"codec-src"})
+}
+
+// termOf writes an error of the codecs as a term; "" when it is not expressible (never the case today)
+func termOf(e error, id string) string {
+	switch x := e.(type) {
+	case *thrift.ProtocolException:
+		c := x.Unwrap()
+		if c == nil {
+			return excNode("e", id, x.TypeId(), x.Msg())
+		}
+		if in := termOf(c, id+"0"); in != "" && in[0] != 'e' && in[0] != 'E' {
+			return excNode("E", id, x.TypeId(), x.Msg()) + ">" + in
+		}
+		return ""
+	case *thrift.TransportException:
+		return excNode("t", id, x.TypeId(), x.Msg())
+	case *thrift.ApplicationException:
+		return excNode("a", id, x.TypeId(), x.Msg())
+	}
+	if _, ok := e.(tExc); ok {
+		return ""
+	}
+	if u, ok := e.(interface{ Unwrap() error }); ok && u.Unwrap() != nil {
+		return ""
+	}
+	return "p:" + id + ":" + hexs(e.Error())
+}
+
+// what every codec source returned when the process started (before any helper was applied to anything)
+var pristine = map[string]string{}
+
+func capturePristine() {
+	for i, c := range codecSrcs {
+		func() {
+			defer func() { recover() }()
+			if e := c.get(); e != nil {
+				pristine[c.name] = termOf(e, strconv.Itoa(900+i))
+			}
+		}()
+	}
+}
+
+// ---------------------------------------------------------------- exc multi
+
+func d3(e error) string { return kindOf(e) + "/" + tidOf(e) + "/" + hexs(e.Error()) }
+
+// runMulti applies the steps one after the other; a lower-case step works on the source object, an upper-case
+// step on the result of the step before. p<hex>/P<hex> = PrependError(prefix, x); w/W = NewProtocolExceptionWithErr(x).
+// After every step: a<i> = the object the step was applied to, g<i> = the source obtained once more (the interned
+// object / a new call of the codec). The results r<i> are rendered only after the last step.
+func runMulti(src, term, steps string) string {
+	obtain := func() error {
+		if src == "t" {
+			return parseErr(term)
+		}
+		if !strings.HasPrefix(src, "c.") {
+			panic(badTerm{"src"})
+		}
+		return codecErr(src[2:])
+	}
+	e := obtain()
+	out := []string{"src=" + d3(e)}
+	type stepRes struct {
+		r   error
+		rel func() string
+	}
+	var rs []stepRes
+	for i, st := range strings.Split(steps, ",") {
+		if st == "" {
+			panic(badTerm{"step"})
+		}
+		x := e
+		if st[0] >= 'A' && st[0] <= 'Z' && len(rs) > 0 {
+			x = rs[len(rs)-1].r
+		}
+		switch st[0] {
+		case 'p', 'P':
+			r := thrift.PrependError(string(lib.UnHex(st[1:])), x)
+			rs = append(rs, stepRes{r, func() string {
+				if pe, ok := r.(*thrift.ProtocolException); ok {
+					if pe.Unwrap() != nil {
+						return "set"
+					}
+					return "nil"
+				}
+				return "-"
+			}})
+		case 'w', 'W':
+			if len(st) != 1 {
+				panic(badTerm{"step"})
+			}
+			r := thrift.NewProtocolExceptionWithErr(x)
+			rs = append(rs, stepRes{r, func() string {
+				if error(r) == x {
+					return "same"
+				}
+				switch r.Unwrap() {
+				case x:
+					return "new-same"
+				case nil:
+					return "new-nil"
+				}
+				return "new-other"
+			}})
+		default:
+			panic(badTerm{"step"})
+		}
+		out = append(out, fmt.Sprintf("a%d=%s g%d=%s", i+1, d3(x), i+1, d3(obtain())))
+	}
+	for i, s := range rs {
+		out = append(out, fmt.Sprintf("r%d=%s/%s", i+1, d3(s.r), s.rel()))
+	}
+	return strings.Join(out, " ")
+}
+
+func (g *gen) steps(term string) string {
+	n := g.r.Pick(2, 2, 3, 3, 4, 6)
+	var st []string
+	for i := 0; i < n; i++ {
+		p := g.str(0)
+		if g.r.Chance(1, 3) {
+			p = []string{"A: ", "B", "ctx: ", "\xfe"}[g.r.Intn(4)]
+		}
+		if p == "" && term[0] == 'f' && strings.HasSuffix(term, ":-") && strings.Count(term, ">") == 0 {
+			p = "F" // known finding F12 ("" prepended to a foreign exception with empty text): judged by `exc prepend`
+		}
+		switch g.r.Intn(8) {
+		case 0:
+			st = append(st, "w")
+		case 1:
+			st = append(st, "W")
+		case 2, 3:
+			st = append(st, "P"+hexs(p))
+		default:
+			st = append(st, "p"+hexs(p))
+		}
+	}
+	return strings.Join(st, ",")
+}
+
+func countMulti(src, term, steps, res string) {
+	em.Count("op:multi")
+	em.Count("multi:src=" + src)
+	em.Count("multi:outer=" + term[:1])
+	em.Count(fmt.Sprintf("multi:steps=%d", strings.Count(steps, ",")+1))
+	if strings.HasPrefix(res, "PANIC") || res == "bad-op" {
+		em.Count("multi:" + res)
+	}
+}
+
+// genMulti: the same object through the helpers again and again - every codec source with fixed step lists
+// (in two rounds, so that the second round meets whatever the first one left behind), then random lists
+func (g *gen) genMulti(n int) {
+	fixed := []string{"p413a20,p423a20", "p78,p78,p78", "p-,p79", "w,p63747820,w,p63747820", "p41,P42,p43,W,P44", "W,P5a,p5a"}
+	for round := 0; round < 2; round++ {
+		for _, c := range codecSrcs {
+			term := pristine[c.name]
+			if term == "" {
+				em.Count("multi:codec-source-unavailable")
+				continue
+			}
+			for _, st := range fixed {
+				countMulti("c."+c.name, term, st, emit("exc", "multi", "c."+c.name, term, st))
+			}
+			st := g.steps(term)
+			countMulti("c."+c.name, term, st, emit("exc", "multi", "c."+c.name, term, st))
+		}
+	}
+	for i := 0; i < n; i++ {
+		if i%3 == 0 {
+			c := codecSrcs[g.r.Intn(len(codecSrcs))]
+			if term := pristine[c.name]; term != "" {
+				st := g.steps(term)
+				countMulti("c."+c.name, term, st, emit("exc", "multi", "c."+c.name, term, st))
+			}
+			continue
+		}
+		term := strings.Join(g.chain(g.r.Pick(0, 0, 0, 1, 1, 2, 4)), ">")
+		st := g.steps(term)
+		countMulti("t", term, st, emit("exc", "multi", "t", term, st))
+	}
 }
 
 // ---------------------------------------------------------------- generators
@@ -555,6 +845,8 @@ func genCases(o *lib.Opts) {
 			}
 		}
 	}
+	// 3. the helpers applied several times to the same object / to the errors of the real codecs
+	g.genMulti(n / 2)
 }
 
 // safeText is Error() of a term; false when the term cannot be built (reported by its own lines)
@@ -581,6 +873,7 @@ func main() {
 		em.Close(o.Stats)
 		return
 	}
+	capturePristine() // generator only: a replayed line carries its own <err>
 	replay(lib.ReadOpLines(o.Corpus))
 	genCases(o)
 	em.Close(o.Stats)
